@@ -10,6 +10,7 @@ are Ok(_) and Err(_).
 import collections
 import json
 import random
+import os
 import time
 
 from tools import common as C
@@ -44,6 +45,43 @@ def random_frames(ctx, n_per_root, rng):
                    "msgcomp": False, "outcome": "any", "val": []}
 
 
+def header_frames(binary, v):
+    """Headers no writer produces, decoded through every world reader entry point (opcode enums, typed
+    expect helpers, plain and decrypting, three flavours): the FOREIGN and RUNT frames of
+    spec/Framing.tla - an undefined opcode, and a size field smaller than the opcode field it counts
+    (0..OW-1) in the 2 byte form and behind Wrath's 3 byte marker - alone and followed by / behind a
+    regular message.  C03 asks of them only that the call returns (alignment is judged by C02)."""
+    from tools import framing_common as F
+    wd, _pool = F.prepare("C03-frames")
+    ex = F.explore(wd, PROP, "c02", "quick", F.PARTS_C02, workers=2, tag="hdr")
+    if not ex.coverage.get("WriteRunt", (0, 0))[1]:
+        raise C.ToolError("vacuous header exploration: WriteRunt never fired")
+    allp = os.path.join(wd, "hdr-all.ndjson")
+    F.number_records(ex.paths, allp, "c03h")
+    keep = os.path.join(wd, "hdr-records.ndjson")
+    n = runts = 0
+    with open(allp) as f, open(keep, "w") as out:
+        for line in f:
+            rec = json.loads(line)
+            odd = [m for m in rec["msgs"] if m["name"] == "?"]
+            if odd:
+                out.write(line)
+                n += 1
+                runts += any(m["body"] == 0 and m["total"] == len(m["hdr"]) and m["hdr"][-(4 if m["dir"] == "client" else 2) - 1] < (4 if m["dir"] == "client" else 2) and m["hdr"][0] in (0, 128) for m in odd)
+    if not n or not runts:
+        raise C.ToolError("no foreign / runt frame histories were explored (%d / %d)" % (n, runts))
+    verdicts, totals = F.run_replay(binary, "frames", keep, F.make_keys(1, PROP), rotate=None)
+    if totals["records"] != n:
+        raise C.ToolError("harness judged %d of %d header histories" % (totals["records"], n))
+    # writes of regular messages are not decoding (their aborts are C02's known u16 overflow finding)
+    bad = [x for x in verdicts if x.get("verdict") in ("panic", "abort", "timeout")
+           and (x.get("name") == "?" or str(x.get("op", "")).startswith("read") or x.get("op") == "process")]
+    rep = F.report(v, F.observations(bad), keep)
+    C.log("[%s] %d header histories (%d with a runt frame) replayed, %d aborts" % (PROP, n, runts, len(bad)))
+    return {"histories": n, "with_runt_frame": runts, "aborts": len(bad), "report": rep,
+            "states": ex.states, "transitions": ex.transitions}
+
+
 def run(tier):
     t0 = time.time()
     every = 2 if tier == "quick" else 1
@@ -57,6 +95,7 @@ def run(tier):
     v = C.Verdicts(PROP)
     for o in verdicts:
         v.report(CC.observation(o), replay=lambda o=o: {"verdict": o, "record": (o["detail"].get("record") if isinstance(o.get("detail"), dict) else None)})
+    hdr = header_frames(binary, v)
     rc = v.finish()
     byfk = collections.Counter()
     sites = set()
@@ -68,12 +107,13 @@ def run(tier):
     if not byfk.get("set") or not byfk.get("truncate"):
         raise C.ToolError("vacuous fault enumeration: %s" % dict(byfk))
     C.write_evidence(PROP, tier, "fault_enumeration", {
-        "evaluations": totals["records"] + t2["records"],
+        "evaluations": totals["records"] + t2["records"] + hdr["histories"],
+        "header_frames": hdr,
         "distinct_nontrivial": len(sites),
         "rule": "one evaluation = one corrupted or random frame decoded in an isolated worker (RLIMIT_AS 1 GiB, 5 s watchdog); distinct_nontrivial = distinct (message, context, direction, family, field) corruption sites; families: set (field := zeros / ones / 1 / 0x7f.. / 2), truncate at each field boundary (consistent header and original header), garbage tail, header size +1 / 0, random bodies",
         "samples": ctx["samples"],
         "faults_by_family": dict(byfk),
-        "states": sum(s["distinct"] for s in ctx["stats"]), "transitions": sum(s["generated"] for s in ctx["stats"]),
+        "states": sum(s["distinct"] for s in ctx["stats"]) + hdr["states"], "transitions": sum(s["generated"] for s in ctx["stats"]) + hdr["transitions"],
         "non_ok_by_verdict": dict(collections.Counter(o["verdict"] for o in verdicts)),
         "known_finding_hits": dict(v.known_hits),
         "bounds": ctx["params"], "fault_every": every,
